@@ -1,6 +1,7 @@
 package main
 
 import (
+	"os"
 	"fmt"
 	"go/ast"
 	"go/token"
@@ -186,6 +187,9 @@ func summarise(owner *pkgInfo, so subObject) (*subSummary, string) {
 					}
 				case "Leak":
 					sum.leaks[mn] = true
+					if os.Getenv("LOCKS2COQ_DEBUG") != "" {
+						fmt.Println("leak in sub-object method", mn, "at", e.Pos, "of", e.A)
+					}
 				case "CallExported", "CallInternal":
 					calls[mn] = append(calls[mn], e.B)
 				}
@@ -1267,6 +1271,10 @@ func (w *walker) call(c *ast.CallExpr) []event {
 			if w.ci.pkg.imports[id.Name] && w.aliases[id.Name] == nil {
 				// pkg.Func(...): formatting functions only read their arguments
 				if id.Name == "fmt" || id.Name == "errors" {
+					return args
+				}
+				// standard-library functions that only read their arguments during the call and retain nothing
+				if _, pure := pureFunctions[id.Name+"."+meth]; pure {
 					return args
 				}
 				return append(args, w.escapeArgs(c.Args, c)...)
